@@ -46,6 +46,8 @@ func main() {
 		oracle(os.Args[2:])
 	case "replay":
 		replay(os.Args[2:])
+	case "cold":
+		cold(os.Args[2:])
 	default:
 		fmt.Fprintln(os.Stderr, "unknown mode")
 		os.Exit(2)
@@ -983,6 +985,8 @@ func oracle(args []string) {
 		}
 		rn.dist["cold-start-round"] = 1
 	}
+	// … and one cold start per family of inputs, each in a process of its own
+	rn.coldStarts(*salt)
 	// committed cases
 	if *corpus != "" {
 		ms, _ := filepath.Glob(filepath.Join(*corpus, "*.json"))
